@@ -8,6 +8,7 @@ component is the variant's own. For a policy: effect ( principal , action , reso
 Whitespace is not compared.
 """
 from lib import shape, cfg, fmtstr, hom, grammar
+from lib import cfg
 from lib.facts import callee
 from lib.rulelib import get_fn, short
 
@@ -244,6 +245,37 @@ def quoted(chk, facts):
         chk.ob(rule, "pattern", ok, "patterns print the wildcard as `*`, a literal star as `\\*` and other characters through escape_debug: literals %s, escape_debug %s" % (lits, esc), where=f.where(), fn=f.name)
 
 
+def escaper_total(chk, facts):
+    """`Eid::escaped` is trusted as an escaper by C05.ESCAPE.quoted; it is one only if *every* path that handles a real id passes
+    the id through escape_debug (a shortcut that returns the raw text for "harmless" ids decides by its own character list what the
+    lexer's unescaper needs escaped)."""
+    rule = "C05.ESCAPE.escaper"
+    f = get_fn(chk, facts, rule, "cedar_policy_core::ast::entity::Eid::escaped")
+    if f is None:
+        return
+    esc = {b for b, t in f.calls() if callee(t).endswith(("::escape_debug",))}
+    starts = set()
+    for b, s_ in f.stmts():
+        if s_[0] != "a":
+            continue
+        rv = s_[2]
+        places = []
+        if rv[0] == "ref":
+            places.append(rv[1])
+        elif rv[0] == "use" and rv[1][0] in "cm":
+            places.append(rv[1][1])
+        for pl in places:
+            if pl[0] == 1 and any(isinstance(e, list) and e and e[0] == "d" and e[1] == "Eid" for e in pl[1:]):
+                starts.add(b)
+    rets = set(cfg.return_blocks(f))
+    bad = sorted(b for b in starts if not cfg.must_pass(f, b, rets, esc))
+    chk.ob(rule, "Eid::escaped", bool(starts) and bool(esc) and not bad,
+           "Eid::escaped: every path from reading the id to the return passes through escape_debug (%d read site(s), %d escape_debug call(s))" % (len(starts), len(esc))
+           if starts and esc and not bad else
+           "Eid::escaped: a path returns text for a real id without passing it through escape_debug (from bb%s): what the lexer's unescaper needs escaped is decided by escape_debug, not by a private character list" % (bad or "?"),
+           where=f.where(), fn=f.name, sample={"reads": sorted(starts), "escape_calls": sorted(esc), "bypass_from": bad})
+
+
 PIPE_OK = ("values", "sorted_by_key", "sorted", "sorted_by", "sorted_unstable", "sorted_unstable_by_key", "map", "collect", "collect_vec", "into_iter", "iter", "rev",
            "chain", "cloned", "copied", "branch", "from_residual", "join", "deref", "concat", "as_ref", "id", "to_cedar", "stringify", "clone", "as_slice", "as_str")
 PIPE_DROPS = ("filter", "filter_map", "dedup", "dedup_by", "dedup_by_key", "unique", "unique_by", "take", "skip", "take_while", "skip_while", "step_by", "retain", "truncate",
@@ -322,6 +354,7 @@ def policy_set_text(chk, facts):
 
 def check(chk, facts):
     quoted(chk, facts)
+    escaper_total(chk, facts)
     policy_set_text(chk, facts)
     scope(chk, facts)
     action(chk, facts)
